@@ -425,3 +425,159 @@ def tokens_to_schedule(toks: list, variant: int) -> list:
             sch += [("iter", 1)]
     sch += [("idle",), ("tick",), ("idle",), ("ev", "stop"), ("idle",), ("tick",), ("ev", "mdns", "ptr"), ("idle",)]
     return sch
+
+
+# ------------------------------------------------------------------ log_runner.async_run
+class LogRun(ReconRun):
+    """The real log_runner.async_run (its own ReconnectLogic inside) on the real APIClient over the simulated network.
+    Rows for TraceLogRunner.tla: ["sub", dump_config] (subscribe_logs as the runner calls it), ["log", n] (handler
+    invoked), ["down"] (the harness ends a live session), ["stop_ret"] (the stop function returned)."""
+
+    def __init__(self, cfg: dict, seed: int = 0):
+        super().__init__(cfg, seed)
+        import aioesphomeapi.log_runner as lrmod
+
+        run = self
+        self.lrmod = lrmod
+        self._orig_rl = lrmod.ReconnectLogic
+        base = self.rl_cls
+
+        class CapturedLogic(base):
+            def __init__(self, *a, **k):
+                super().__init__(*a, **k)
+                run.rl = self  # the manager the runner created: start / mDNS guards of the harness look at it
+
+        lrmod.ReconnectLogic = CapturedLogic
+        orig_sub = self.client.subscribe_logs
+
+        def subscribe_logs(on_log, log_level=None, dump_config=None):
+            run.rows.append({"e": ["sub", bool(dump_config)], "t": run.w.now_ms()})
+            return orig_sub(on_log, log_level=log_level, dump_config=dump_config)
+
+        self.client.subscribe_logs = subscribe_logs
+        self.stop_fn = None
+        self.rows = []
+
+    def event(self, e: list) -> None:  # manager-level events are not part of this trace
+        if e and e[0] == "stop_ret":
+            self.rows.append({"e": ["stop_ret"], "t": self.w.now_ms()})
+
+    def ev_start(self):
+        def fn():
+            if self.stop_fn is not None or getattr(self, "_starting", False):
+                return False
+            self._starting = True
+
+            async def go():
+                self.stop_fn = await self.lrmod.async_run(self.client, lambda m: self.rows.append({"e": ["log", int(m.message.decode())], "t": self.w.now_ms()}),
+                                                          dump_config=True, name="dev")
+
+            asyncio.Task(go(), loop=self.loop, eager_start=True)
+
+        self.inject(fn)
+
+    def ev_stop(self):
+        def fn():
+            if self.stop_fn is None or getattr(self, "_stopping", False):
+                return False
+            self._stopping = True
+
+            async def stop():
+                await self.stop_fn()
+                self.rows.append({"e": ["stop_ret"], "t": self.w.now_ms()})
+
+            asyncio.Task(stop(), loop=self.loop, eager_start=True)
+
+        self.inject(fn)
+
+    def ev_eof(self):
+        def fn():
+            if self._session_live():
+                self.rows.append({"e": ["down"], "t": self.w.now_ms()})
+            return self.w.eof()
+
+        self.inject(fn)
+
+    def ev_chunk(self, ms: list):
+        w = self.w
+        disc = any(m.get("k") == "discreq" for m in ms)
+
+        def fn():
+            tr = w.tr
+            if tr is None or not tr.can_receive():
+                return False
+            if disc and self._session_live():
+                self.rows.append({"e": ["down"], "t": self.w.now_ms()})  # the device ends the live session
+            return w.send_msgs([device_message(m) for m in ms])
+
+        self.inject(fn)
+
+    def ev_logmsg(self, n: int):
+        from .world import msg_id, pb
+
+        def fn():
+            tr = self.w.tr
+            if tr is None or not tr.can_receive() or not self._session_live():
+                return False
+            return self.w.send_msgs([(msg_id("SubscribeLogsResponse"), pb("SubscribeLogsResponse", level=3, message=str(n).encode()).SerializeToString())])
+
+        self.inject(fn)
+
+    def settle(self) -> None:
+        self.loop.run_until_idle()
+
+    def finish(self) -> dict:
+        self.settle()
+        self.lrmod.ReconnectLogic = self._orig_rl
+        self.zmod.AsyncZeroconf = self._orig_azc
+        if self.loop.harness_errors:
+            raise RuntimeError("harness: exception in the harness's own callback code: " + "; ".join(self.loop.harness_errors[:3]))
+        self.w.close()
+        return {"rows": self.rows, "skipped": self.skipped}
+
+
+def run_log_schedule(schedule: list, seed: int = 0) -> dict:
+    r = LogRun({}, seed)
+    try:
+        for it in schedule:
+            k = it[0]
+            if k == "ev":
+                getattr(r, "ev_" + it[1])(*it[2:])
+            elif k == "iter":
+                for _ in range(it[1]):
+                    r.loop.iteration()
+            elif k == "idle":
+                r.settle()
+            elif k == "tick":
+                r.settle()
+                if r.loop.advance_to_next_timer():
+                    r.settle()
+        return r.finish()
+    except BaseException:
+        r.lrmod.ReconnectLogic = r._orig_rl
+        r.zmod.AsyncZeroconf = r._orig_azc
+        r.w.close()
+        raise
+
+
+def log_runner_family(rng: random.Random, n: int) -> list:
+    """Several sessions of one runner: each established session subscribes once (the configuration dump only the first
+    time), log lines reach the handler while a session is up, the stop function ends it for good."""
+    out = []
+    for _ in range(n):
+        sch = [("ev", "start"), ("idle",)]
+        for s_ in range(rng.randrange(1, 5)):
+            outcome = rng.choice(("ok", "ok", "tcp_err", "resolve_err"))
+            sch += attempt_steps(outcome) + [("idle",)]
+            if outcome == "ok":
+                for _ in range(rng.randrange(0, 4)):
+                    sch += [("ev", "logmsg", rng.randrange(1, 500))] + gaps(rng)
+                sch += [rng.choice([("ev", "eof"), ("ev", "chunk", [{"k": "discreq"}]), ("ev", "eof")])] + gaps(rng)
+                if rng.random() < 0.3:
+                    sch += [("ev", "logmsg", 7), ("idle",)]
+            sch += [("tick",)]
+        if rng.random() < 0.7:
+            sch += attempt_steps("ok") + [("idle",), ("ev", "logmsg", 9), ("idle",)]
+        sch += [("ev", "stop"), ("idle",), ("ev", "logmsg", 5), ("tick",), ("idle",)]
+        out.append(sch)
+    return out
